@@ -403,6 +403,404 @@ pub fn pedersen(seed: u64, thorough: bool) -> Vec<Value> {
     out
 }
 
+
+// ====================================================================== Schnorr proofs (C10, C11)
+
+/// [q]P for the group order q (P any curve point): lands in the cofactor torsion
+fn mul_by_order_g1(p: G1Projective) -> G1Projective {
+    const Q: [u64; 4] = [0xffff_ffff_0000_0001, 0x53bd_a402_fffe_5bfe, 0x3339_d808_09a1_d805, 0x73ed_a753_299d_7d48];
+    let mut acc = G1Projective::identity();
+    for limb in Q.iter().rev() {
+        for bit in (0..64).rev() {
+            acc = acc.double();
+            if (limb >> bit) & 1 == 1 { acc += p; }
+        }
+    }
+    acc
+}
+/// a non-identity G1 point of small order (outside the prime-order subgroup), if one can be found
+pub fn torsion_point_g1(rng: &mut StdRng) -> Option<G1Projective> {
+    use rand::RngCore;
+    for _ in 0..200 {
+        let mut b = [0u8; 48];
+        rng.fill_bytes(&mut b);
+        b[0] = (b[0] & 0x1f) | 0x80;
+        if let Some(p) = Option::<G1Affine>::from(G1Affine::from_compressed_unchecked(&b)) {
+            if bool::from(p.is_torsion_free()) { continue; }
+            let t = mul_by_order_g1(G1Projective::from(p));
+            if !bool::from(t.is_identity()) { return Some(t); }
+        }
+    }
+    None
+}
+
+struct ProofCase {
+    case: String,
+    bytes: Vec<u8>,
+    wrong_challenge: bool,
+    other_params: bool,
+}
+
+/// perturbation cases of a serialized proof (every atom; swap C/T; identity elements)
+fn perturbations(tree: &Tree, rng: &mut StdRng, thorough: bool) -> Vec<ProofCase> {
+    let mut v = vec![];
+    for l in tree.atoms() {
+        let orig = &tree.bytes[l.off..l.off + l.len];
+        let mut alts: Vec<(String, Vec<u8>)> = vec![];
+        match l.len {
+            32 => {
+                alts.push(("+1".into(), (indep::sc(orig).unwrap() + Scalar::one()).to_bytes().to_vec()));
+                if thorough { alts.push(("random".into(), Scalar::random(&mut *rng).to_bytes().to_vec())); }
+            }
+            48 => {
+                let p = G1Projective::from(indep::g1(orig).unwrap());
+                alts.push(("+generator".into(), G1Affine::from(p + G1Projective::generator()).to_compressed().to_vec()));
+                alts.push(("identity".into(), G1Affine::identity().to_compressed().to_vec()));
+                if let Some(t) = torsion_point_g1(rng) {
+                    alts.push(("+small-order point".into(), G1Affine::from(p + t).to_compressed().to_vec()));
+                }
+                if thorough { alts.push(("negated".into(), G1Affine::from(-p).to_compressed().to_vec())); }
+            }
+            _ => {
+                let p = G2Projective::from(indep::g2(orig).unwrap());
+                alts.push(("+generator".into(), G2Affine::from(p + G2Projective::generator()).to_compressed().to_vec()));
+                alts.push(("identity".into(), G2Affine::identity().to_compressed().to_vec()));
+            }
+        }
+        for (name, nb) in alts {
+            let mut b = tree.bytes.clone();
+            b[l.off..l.off + l.len].copy_from_slice(&nb);
+            v.push(ProofCase { case: format!("perturb:{}:{}", l.path, name), bytes: b, wrong_challenge: false, other_params: false });
+        }
+    }
+    // swap commitment and scalar commitment
+    let c = tree.leaves.iter().find(|l| l.path.ends_with("commitment") && !l.path.ends_with("scalar_commitment")).cloned();
+    let t = tree.leaves.iter().find(|l| l.path.ends_with("scalar_commitment")).cloned();
+    if let (Some(c), Some(t)) = (c, t) {
+        let mut b = tree.bytes.clone();
+        let (cb, tb) = (tree.bytes[c.off..c.off + c.len].to_vec(), tree.bytes[t.off..t.off + t.len].to_vec());
+        b[c.off..c.off + c.len].copy_from_slice(&tb);
+        b[t.off..t.off + t.len].copy_from_slice(&cb);
+        v.push(ProofCase { case: "perturb:swap C/T".into(), bytes: b, wrong_challenge: false, other_params: false });
+    }
+    v.push(ProofCase { case: "challenge".into(), bytes: tree.bytes.clone(), wrong_challenge: true, other_params: false });
+    v.push(ProofCase { case: "params".into(), bytes: tree.bytes.clone(), wrong_challenge: false, other_params: true });
+    v
+}
+
+fn linked_subsets(n: usize, thorough: bool) -> Vec<Vec<usize>> {
+    let mut v = vec![vec![], (0..n).collect::<Vec<_>>()];
+    if n <= 5 && (thorough || n <= 3) {
+        for mask in 1u32..((1 << n) - 1) { v.push((0..n).filter(|i| mask >> i & 1 == 1).collect()); }
+    } else {
+        for i in 0..n { v.push(vec![i]); }
+        if n >= 2 { v.push(vec![0, n - 1]); }
+    }
+    v
+}
+
+fn schnorr_n<const N: usize>(rng: &mut StdRng, thorough: bool, out: &mut Vec<Value>) {
+    let kp = KeyPair::<N>::new(rng);
+    let pk = kp.public_key().clone();
+    let pkv = Pk::from_tree(&Tree::of(&pk), "").unwrap();
+    let okp = KeyPair::<N>::new(rng);
+    let opkv = Pk::from_tree(&Tree::of(okp.public_key()), "").unwrap();
+    let p1 = PedersenParameters::<G1Projective, N>::new(rng);
+    let p2 = PedersenParameters::<G2Projective, N>::new(rng);
+    let o1 = PedersenParameters::<G1Projective, N>::new(rng);
+    let o2 = PedersenParameters::<G2Projective, N>::new(rng);
+    let t1 = Tree::of(&p1);
+    let t2 = Tree::of(&p2);
+    let (h1, g1s): (G1Affine, Vec<G1Affine>) = (indep::g1(t1.bytes_at("h").unwrap()).unwrap(), (0..N).map(|i| indep::g1(t1.bytes_at(&format!("gs.{}", i)).unwrap()).unwrap()).collect());
+    let (h2, g2s): (G2Affine, Vec<G2Affine>) = (indep::g2(t2.bytes_at("h").unwrap()).unwrap(), (0..N).map(|i| indep::g2(t2.bytes_at(&format!("gs.{}", i)).unwrap()).unwrap()).collect());
+    let to1 = Tree::of(&o1);
+    let to2 = Tree::of(&o2);
+    let (oh1, og1s): (G1Affine, Vec<G1Affine>) = (indep::g1(to1.bytes_at("h").unwrap()).unwrap(), (0..N).map(|i| indep::g1(to1.bytes_at(&format!("gs.{}", i)).unwrap()).unwrap()).collect());
+    let (oh2, og2s): (G2Affine, Vec<G2Affine>) = (indep::g2(to2.bytes_at("h").unwrap()).unwrap(), (0..N).map(|i| indep::g2(to2.bytes_at(&format!("gs.{}", i)).unwrap()).unwrap()).collect());
+    let mcs = message_classes(N);
+    let subsets = linked_subsets(N, thorough);
+    let mut count = 0usize;
+    for mc in &mcs {
+        for sub in &subsets {
+            count += 1;
+            if !thorough && N >= 3 && count % (if N > 5 { 4 } else { 2 }) != 0 { continue; }
+            let mut mv = [Scalar::zero(); N];
+            for i in 0..N { mv[i] = class_scalar(mc[i], rng); }
+            let mut link = [None; N];
+            for &i in sub { link[i] = Some(class_scalar(if i % 3 == 2 { "zero" } else { "random" }, rng)); }
+            let do_perturb = count % (if thorough { 3 } else { 9 }) == 1;
+            // ---------------- commitment proof G1
+            {
+                let b = CommitmentProofBuilder::<G1Projective, N>::generate_proof_commitments(rng, Message::<N>::new(mv), &link, &p1);
+                let cs = *b.conjunction_commitment_scalars();
+                let cb = ChallengeBuilder::new().with(&b).with(&p1).finish();
+                let p = b.generate_proof_response(cb);
+                let cp = ChallengeBuilder::new().with(&p).with(&p1).finish();
+                let tree = Tree::of(&p);
+                let view = Cp::from_tree(&tree, "").or_else(|| cp_root(&tree)).unwrap();
+                let c = cp.to_scalar();
+                let zs = p.conjunction_response_scalars();
+                let pat = (0..N).all(|i| zs[i] == c * mv[i] + cs[i]) && sub.iter().all(|&i| Some(cs[i]) == link[i]);
+                out.push(json!({"ev": "proof", "kind": "cp_g1", "N": N, "m": mc, "linked": sub, "case": "honest", "decoded": true,
+                                "verdict": p.verify_knowledge_of_opening(&p1, cp), "builder_eq_proof": cb.to_scalar() == c,
+                                "atoms": {"schnorr": view.schnorr_g1(&h1, &g1s, &c)}, "patterns": {"responses_open_to_message_with_given_commitment_scalars": pat}}));
+                if do_perturb {
+                    for pc in perturbations(&tree, rng, thorough) {
+                        let dec = bincode::deserialize::<zkchannels_crypto::proofs::CommitmentProof<G1Projective, N>>(&pc.bytes);
+                        let ch = if pc.wrong_challenge { ChallengeBuilder::new().with(&p).with_bytes(b"other").finish() } else { cp };
+                        let mut ev = json!({"ev": "proof", "kind": "cp_g1", "N": N, "case": pc.case, "decoded": dec.is_ok()});
+                        if let Ok(q) = dec {
+                            let v2 = cp_root(&Tree { bytes: pc.bytes.clone(), leaves: tree.leaves.clone() }).unwrap();
+                            let (hh, gg) = if pc.other_params { (&oh1, &og1s) } else { (&h1, &g1s) };
+                            ev["verdict"] = json!(q.verify_knowledge_of_opening(if pc.other_params { &o1 } else { &p1 }, ch));
+                            ev["atoms"] = json!({"schnorr": v2.schnorr_g1(hh, gg, &ch.to_scalar())});
+                        }
+                        out.push(ev);
+                    }
+                    // simulated transcript: random responses, T := Commit(z, zb) - c*C
+                    let mut b2 = tree.bytes.clone();
+                    let mut lhs = G1Projective::identity();
+                    let zb = Scalar::random(&mut *rng);
+                    b2[tree.get("blinding_factor_response_scalar").unwrap().off..][..32].copy_from_slice(&zb.to_bytes());
+                    lhs += G1Projective::from(h1) * zb;
+                    for i in 0..N {
+                        let z = Scalar::random(&mut *rng);
+                        b2[tree.get(&format!("message_response_scalars.{}", i)).unwrap().off..][..32].copy_from_slice(&z.to_bytes());
+                        lhs += G1Projective::from(g1s[i]) * z;
+                    }
+                    let cc = G1Projective::from(indep::g1(&view.c).unwrap());
+                    let newt = G1Affine::from(lhs - cc * c).to_compressed();
+                    b2[tree.get("scalar_commitment").unwrap().off..][..48].copy_from_slice(&newt);
+                    let q: zkchannels_crypto::proofs::CommitmentProof<G1Projective, N> = bincode::deserialize(&b2).unwrap();
+                    let v2 = cp_root(&Tree { bytes: b2.clone(), leaves: tree.leaves.clone() }).unwrap();
+                    out.push(json!({"ev": "proof", "kind": "cp_g1", "N": N, "case": "simulated", "decoded": true, "verdict": q.verify_knowledge_of_opening(&p1, cp), "atoms": {"schnorr": v2.schnorr_g1(&h1, &g1s, &c)}}));
+                    let other = ChallengeBuilder::new().with(&q).with_bytes(b"x").finish();
+                    out.push(json!({"ev": "proof", "kind": "cp_g1", "N": N, "case": "simulated_other_challenge", "decoded": true, "verdict": q.verify_knowledge_of_opening(&p1, other), "atoms": {"schnorr": v2.schnorr_g1(&h1, &g1s, &other.to_scalar())}}));
+                }
+            }
+            // ---------------- commitment proof G2
+            {
+                let b = CommitmentProofBuilder::<G2Projective, N>::generate_proof_commitments(rng, Message::<N>::new(mv), &link, &p2);
+                let cs = *b.conjunction_commitment_scalars();
+                let cb = ChallengeBuilder::new().with(&b).finish();
+                let p = b.generate_proof_response(cb);
+                let cp = ChallengeBuilder::new().with(&p).finish();
+                let tree = Tree::of(&p);
+                let view = cp_root(&tree).unwrap();
+                let c = cp.to_scalar();
+                let zs = p.conjunction_response_scalars();
+                let pat = (0..N).all(|i| zs[i] == c * mv[i] + cs[i]);
+                out.push(json!({"ev": "proof", "kind": "cp_g2", "N": N, "m": mc, "linked": sub, "case": "honest", "decoded": true,
+                                "verdict": p.verify_knowledge_of_opening(&p2, cp), "builder_eq_proof": cb.to_scalar() == c,
+                                "atoms": {"schnorr": view.schnorr_g2(&h2, &g2s, &c)}, "patterns": {"responses_open_to_message_with_given_commitment_scalars": pat}}));
+                if do_perturb {
+                    for pc in perturbations(&tree, rng, thorough) {
+                        let dec = bincode::deserialize::<zkchannels_crypto::proofs::CommitmentProof<G2Projective, N>>(&pc.bytes);
+                        let ch = if pc.wrong_challenge { ChallengeBuilder::new().with(&p).with_bytes(b"other").finish() } else { cp };
+                        let mut ev = json!({"ev": "proof", "kind": "cp_g2", "N": N, "case": pc.case, "decoded": dec.is_ok()});
+                        if let Ok(q) = dec {
+                            let v2 = cp_root(&Tree { bytes: pc.bytes.clone(), leaves: tree.leaves.clone() }).unwrap();
+                            let (hh, gg) = if pc.other_params { (&oh2, &og2s) } else { (&h2, &g2s) };
+                            ev["verdict"] = json!(q.verify_knowledge_of_opening(if pc.other_params { &o2 } else { &p2 }, ch));
+                            ev["atoms"] = json!({"schnorr": v2.schnorr_g2(hh, gg, &ch.to_scalar())});
+                        }
+                        out.push(ev);
+                    }
+                }
+            }
+            // ---------------- signature request proof
+            {
+                let b = SignatureRequestProofBuilder::<N>::generate_proof_commitments(rng, Message::<N>::new(mv), &link, &pk);
+                let cs = *b.conjunction_commitment_scalars();
+                let cb = ChallengeBuilder::new().with(&b).finish();
+                let p = b.generate_proof_response(cb);
+                let cp = ChallengeBuilder::new().with(&p).finish();
+                let tree = Tree::of(&p);
+                let view = Cp::from_tree(&tree, "commitment_proof").unwrap();
+                let c = cp.to_scalar();
+                let zs = p.conjunction_response_scalars();
+                let pat = (0..N).all(|i| zs[i] == c * mv[i] + cs[i]);
+                out.push(json!({"ev": "proof", "kind": "srp", "N": N, "m": mc, "linked": sub, "case": "honest", "decoded": true,
+                                "verdict": p.verify_knowledge_of_opening(&pk, cp).is_some(), "builder_eq_proof": cb.to_scalar() == c,
+                                "atoms": {"schnorr": view.schnorr_g1(&pkv.g1, &pkv.y1s, &c)}, "patterns": {"responses_open_to_message_with_given_commitment_scalars": pat}}));
+                if do_perturb {
+                    for pc in perturbations(&tree, rng, thorough) {
+                        let dec = bincode::deserialize::<zkchannels_crypto::proofs::SignatureRequestProof<N>>(&pc.bytes);
+                        let ch = if pc.wrong_challenge { ChallengeBuilder::new().with(&p).with_bytes(b"other").finish() } else { cp };
+                        let mut ev = json!({"ev": "proof", "kind": "srp", "N": N, "case": pc.case, "decoded": dec.is_ok()});
+                        if let Ok(q) = dec {
+                            let v2 = Cp::from_tree(&Tree { bytes: pc.bytes.clone(), leaves: tree.leaves.clone() }, "commitment_proof").unwrap();
+                            let kk = if pc.other_params { &opkv } else { &pkv };
+                            ev["verdict"] = json!(q.verify_knowledge_of_opening(if pc.other_params { okp.public_key() } else { &pk }, ch).is_some());
+                            ev["atoms"] = json!({"schnorr": v2.schnorr_g1(&kk.g1, &kk.y1s, &ch.to_scalar())});
+                        }
+                        out.push(ev);
+                    }
+                }
+            }
+            // ---------------- signature proof
+            {
+                let sig = Message::<N>::new(mv).sign(rng, &kp);
+                let b = SignatureProofBuilder::<N>::generate_proof_commitments(rng, Message::<N>::new(mv), sig, &link, &pk);
+                let cs = *b.conjunction_commitment_scalars();
+                let cb = ChallengeBuilder::new().with(&b).finish();
+                let p = b.generate_proof_response(cb);
+                let cp = ChallengeBuilder::new().with(&p).finish();
+                let tree = Tree::of(&p);
+                let view = Sp::from_tree(&tree, "").or_else(|| sp_root(&tree)).unwrap();
+                let c = cp.to_scalar();
+                let (wf, sch, pair) = view.relations(&pkv, &c);
+                let zs = p.conjunction_response_scalars();
+                let pat = (0..N).all(|i| zs[i] == c * mv[i] + cs[i]);
+                out.push(json!({"ev": "proof", "kind": "sp", "N": N, "m": mc, "linked": sub, "case": "honest", "decoded": true,
+                                "verdict": p.verify_knowledge_of_signature(&pk, cp), "builder_eq_proof": cb.to_scalar() == c,
+                                "atoms": {"sigma1_not_identity": wf, "schnorr": sch, "pairing": pair}, "patterns": {"responses_open_to_message_with_given_commitment_scalars": pat}}));
+                if do_perturb {
+                    for pc in perturbations(&tree, rng, thorough) {
+                        let dec = bincode::deserialize::<zkchannels_crypto::proofs::SignatureProof<N>>(&pc.bytes);
+                        let ch = if pc.wrong_challenge { ChallengeBuilder::new().with(&p).with_bytes(b"other").finish() } else { cp };
+                        let mut ev = json!({"ev": "proof", "kind": "sp", "N": N, "case": pc.case, "decoded": dec.is_ok()});
+                        if let Ok(q) = dec {
+                            let v2 = sp_root(&Tree { bytes: pc.bytes.clone(), leaves: tree.leaves.clone() }).unwrap();
+                            let kk = if pc.other_params { &opkv } else { &pkv };
+                            let (a, b_, c_) = v2.relations(kk, &ch.to_scalar());
+                            ev["verdict"] = json!(q.verify_knowledge_of_signature(if pc.other_params { okp.public_key() } else { &pk }, ch));
+                            ev["atoms"] = json!({"sigma1_not_identity": a, "schnorr": b_, "pairing": c_});
+                        }
+                        out.push(ev);
+                    }
+                    // a signature on another message / by another key inside an otherwise honest proof
+                    for (case, s2) in [("signature_on_other_message", Message::<N>::new([Scalar::from(99u64); N]).sign(rng, &kp)), ("signature_by_other_key", Message::<N>::new(mv).sign(rng, &okp))] {
+                        let b = SignatureProofBuilder::<N>::generate_proof_commitments(rng, Message::<N>::new(mv), s2, &link, &pk);
+                        let ch = ChallengeBuilder::new().with(&b).finish();
+                        let q = b.generate_proof_response(ch);
+                        let v2 = sp_root(&Tree::of(&q)).unwrap();
+                        let (a, b_, c_) = v2.relations(&pkv, &ch.to_scalar());
+                        out.push(json!({"ev": "proof", "kind": "sp", "N": N, "case": case, "decoded": true, "verdict": q.verify_knowledge_of_signature(&pk, ch),
+                                        "atoms": {"sigma1_not_identity": a, "schnorr": b_, "pairing": c_}}));
+                    }
+                    // the all-identity blinded signature through chosen randomness: the draw after the blinding
+                    // factor, its commitment scalar and one commitment scalar per unlinked slot is zero
+                    let free = link.iter().filter(|x| x.is_none()).count();
+                    let mut script = vec![Draw::Generic; 2 + free];
+                    script.push(Draw::Zero);
+                    let mut srng = Scripted::new(script, 3);
+                    let any_sig = Message::<N>::new([Scalar::from(5u64); N]).sign(rng, &okp);
+                    let b = SignatureProofBuilder::<N>::generate_proof_commitments(&mut srng, Message::<N>::new(mv), any_sig, &link, &pk);
+                    let ch = ChallengeBuilder::new().with(&b).finish();
+                    let q = b.generate_proof_response(ch);
+                    let v2 = sp_root(&Tree::of(&q)).unwrap();
+                    let (a, b_, c_) = v2.relations(&pkv, &ch.to_scalar());
+                    out.push(json!({"ev": "proof", "kind": "sp", "N": N, "case": "identity_signature", "decoded": true, "verdict": q.verify_knowledge_of_signature(&pk, ch),
+                                    "atoms": {"sigma1_not_identity": a, "schnorr": b_, "pairing": c_}, "is_identity": !a}));
+                }
+            }
+        }
+    }
+}
+
+fn cp_root(t: &Tree) -> Option<Cp> {
+    let mut z = vec![];
+    let mut i = 0;
+    while let Some(b) = t.bytes_at(&format!("message_response_scalars.{}", i)) { z.push(indep::sc(b)?); i += 1; }
+    Some(Cp { c: t.bytes_at("commitment")?.to_vec(), t: t.bytes_at("scalar_commitment")?.to_vec(), zbf: indep::sc(t.bytes_at("blinding_factor_response_scalar")?)?, z })
+}
+fn sp_root(t: &Tree) -> Option<Sp> {
+    Some(Sp { s1: t.bytes_at("blinded_signature.sigma1")?.to_vec(), s2: t.bytes_at("blinded_signature.sigma2")?.to_vec(), cp: Cp::from_tree(t, "commitment_proof")? })
+}
+
+/// the documented constraint patterns on response scalars (C10)
+fn patterns(rng: &mut StdRng, out: &mut Vec<Value>, rp: &RangeConstraintParameters, thorough: bool) {
+    let kp = KeyPair::<3>::new(rng);
+    let pk = kp.public_key().clone();
+    let p1 = PedersenParameters::<G1Projective, 3>::new(rng);
+    let p2 = PedersenParameters::<G2Projective, 3>::new(rng);
+    let publics = ["zero", "one", "minus_one", "random"];
+    for mc in ["random", "zero", "one", "minus_one"] {
+        for pc in publics {
+            let m1 = class_scalar(mc, rng);
+            let pubv = class_scalar(pc, rng);
+            for host in ["cp_g1", "cp_g2", "srp", "sp"] {
+                // slots: [m1, m1 + pub, m1 * pub];  commitment scalars [cs, cs, cs * pub]
+                let cs = Scalar::random(&mut *rng);
+                let mv = [m1, m1 + pubv, m1 * pubv];
+                let link = [Some(cs), Some(cs), Some(cs * pubv)];
+                let (zs, c, ok): ([Scalar; 3], Scalar, bool) = match host {
+                    "cp_g1" => { let b = CommitmentProofBuilder::<G1Projective, 3>::generate_proof_commitments(rng, Message::new(mv), &link, &p1); let ch = ChallengeBuilder::new().with(&b).finish(); let p = b.generate_proof_response(ch); (*p.conjunction_response_scalars(), ch.to_scalar(), p.verify_knowledge_of_opening(&p1, ch)) }
+                    "cp_g2" => { let b = CommitmentProofBuilder::<G2Projective, 3>::generate_proof_commitments(rng, Message::new(mv), &link, &p2); let ch = ChallengeBuilder::new().with(&b).finish(); let p = b.generate_proof_response(ch); (*p.conjunction_response_scalars(), ch.to_scalar(), p.verify_knowledge_of_opening(&p2, ch)) }
+                    "srp" => { let b = SignatureRequestProofBuilder::<3>::generate_proof_commitments(rng, Message::new(mv), &link, &pk); let ch = ChallengeBuilder::new().with(&b).finish(); let p = b.generate_proof_response(ch); (*p.conjunction_response_scalars(), ch.to_scalar(), p.verify_knowledge_of_opening(&pk, ch).is_some()) }
+                    _ => { let sig = Message::new(mv).sign(rng, &kp); let b = SignatureProofBuilder::<3>::generate_proof_commitments(rng, Message::new(mv), sig, &link, &pk); let ch = ChallengeBuilder::new().with(&b).finish(); let p = b.generate_proof_response(ch); (*p.conjunction_response_scalars(), ch.to_scalar(), p.verify_knowledge_of_signature(&pk, ch)) }
+                };
+                out.push(json!({"ev": "pattern", "host": host, "m": mc, "public": pc, "verifies": ok,
+                                "patterns": {"public_addition": zs[1] == zs[0] + c * pubv, "public_product": zs[2] == zs[0] * pubv, "partial_opening": zs[0] == c * m1 + cs}}));
+                // equality within a proof, secret sum (also with commitment scalars cs and -cs), equality across proofs
+                for neg in [false, true] {
+                    let cs1 = Scalar::random(&mut *rng);
+                    let cs2 = if neg { -cs1 } else { Scalar::random(&mut *rng) };
+                    let m2 = class_scalar(pc, rng);
+                    let mv2 = [m1, m2, m1 + m2];
+                    let link2 = [Some(cs1), Some(cs2), Some(cs1 + cs2)];
+                    let b = SignatureRequestProofBuilder::<3>::generate_proof_commitments(rng, Message::new(mv2), &link2, &pk);
+                    // a second proof (other group) sharing slot 0
+                    let b2 = CommitmentProofBuilder::<G2Projective, 3>::generate_proof_commitments(rng, Message::new([m1, m1, m2]), &[Some(cs1), Some(cs1), None], &p2);
+                    let ch = ChallengeBuilder::new().with(&b).with(&b2).finish();
+                    let p = b.generate_proof_response(ch);
+                    let q = b2.generate_proof_response(ch);
+                    let z = p.conjunction_response_scalars();
+                    let w = q.conjunction_response_scalars();
+                    out.push(json!({"ev": "pattern", "host": "srp+cp_g2", "m": mc, "public": pc, "cs_sum_zero": neg,
+                                    "verifies": p.verify_knowledge_of_opening(&pk, ch).is_some() && q.verify_knowledge_of_opening(&p2, ch),
+                                    "patterns": {"secret_sum": z[2] == z[0] + z[1], "equality_within": w[0] == w[1], "equality_across": z[0] == w[0]}}));
+                }
+            }
+        }
+    }
+    // range link: the value's slot of a host proof uses the range builder's commitment scalar
+    let mut vals: Vec<i64> = vec![0, 1, 127, 128, 129, i64::MAX, i64::MAX - 1, 0x0123_4567_89ab_cdef, 0x7edc_ba98_7654_3210];
+    for k in 1..9u32 { let p = 128i64.pow(k); vals.extend([p - 1, p, p + 1]); }
+    if thorough { for _ in 0..40 { use rand::Rng; vals.push(rng.gen_range(0..i64::MAX)); } }
+    for (i, v) in vals.iter().enumerate() {
+        let rb = RangeConstraintBuilder::generate_constraint_commitments(*v, rp, rng).unwrap();
+        let csr = rb.commitment_scalar();
+        let mv = [Scalar::from(*v as u64), Scalar::random(&mut *rng), Scalar::zero()];
+        let host = i % 3;
+        let (z0, ch, ok) = match host {
+            0 => { let b = CommitmentProofBuilder::<G1Projective, 3>::generate_proof_commitments(rng, Message::new(mv), &[Some(csr), None, None], &p1); let ch = ChallengeBuilder::new().with(&b).with(&rb).finish(); let p = b.generate_proof_response(ch); (p.conjunction_response_scalars()[0], ch, p.verify_knowledge_of_opening(&p1, ch)) }
+            1 => { let b = SignatureRequestProofBuilder::<3>::generate_proof_commitments(rng, Message::new(mv), &[Some(csr), None, None], &pk); let ch = ChallengeBuilder::new().with(&b).with(&rb).finish(); let p = b.generate_proof_response(ch); (p.conjunction_response_scalars()[0], ch, p.verify_knowledge_of_opening(&pk, ch).is_some()) }
+            _ => { let sig = Message::new(mv).sign(rng, &kp); let b = SignatureProofBuilder::<3>::generate_proof_commitments(rng, Message::new(mv), sig, &[Some(csr), None, None], &pk); let ch = ChallengeBuilder::new().with(&b).with(&rb).finish(); let p = b.generate_proof_response(ch); (p.conjunction_response_scalars()[0], ch, p.verify_knowledge_of_signature(&pk, ch)) }
+        };
+        let rc = rb.generate_constraint_response(ch);
+        let hostname = ["cp_g1", "srp", "sp"][host];
+        out.push(json!({"ev": "pattern", "host": hostname, "m": "value", "public": v.to_string(), "verifies": ok,
+                        "patterns": {"range_link": rc.verify_range_constraint(rp, ch, z0)}}));
+    }
+}
+
+pub fn schnorr(seed: u64, thorough: bool) -> Vec<Value> {
+    macro_rules! spawn_n {
+        ($n:literal) => {
+            std::thread::spawn(move || {
+                let mut rng = seeded(seed, 630 + $n);
+                let mut out = vec![];
+                schnorr_n::<$n>(&mut rng, thorough, &mut out);
+                out
+            })
+        };
+    }
+    let hp = std::thread::spawn(move || {
+        let mut rng = seeded(seed, 639);
+        let rp = RangeConstraintParameters::new(&mut rng);
+        let mut out = vec![];
+        patterns(&mut rng, &mut out, &rp, thorough);
+        out
+    });
+    let hs = vec![spawn_n!(1), spawn_n!(2), spawn_n!(3), spawn_n!(5), spawn_n!(8), spawn_n!(13)];
+    let mut out = vec![];
+    for h in hs { out.extend(h.join().expect("schnorr worker")); }
+    out.extend(hp.join().expect("pattern worker"));
+    out
+}
+
 #[allow(dead_code)]
 fn _keep(_: &Sp, _: &G2Affine, _: &G2Projective, _: &PedersenParameters<G1Projective, 1>, _: &PublicKey<1>, _: &CommitmentProofBuilder<G1Projective, 1>,
          _: &RangeConstraintBuilder, _: &RangeConstraintParameters, _: &SignatureProofBuilder<1>) {
